@@ -23,6 +23,7 @@ from __future__ import annotations
 
 import ast
 
+from .dispatch import _clone_ast
 from .flow import dominating_tests, preceding_guards
 from .source import AnalysisError, dotted, mentions, norm
 from .symbols import isinstance_classes
@@ -81,7 +82,7 @@ class _SubstNames(ast.NodeTransformer):
         if node.id in self.mapping and isinstance(node.ctx, ast.Load):
             import copy
 
-            return copy.deepcopy(self.mapping[node.id])
+            return _clone_ast(self.mapping[node.id])
         return node
 
 
@@ -93,7 +94,7 @@ def _truth_of_helper(h, args_map, methods, depth):
     body = [s_ for s_ in h.body if not (isinstance(s_, ast.Expr) and isinstance(s_.value, ast.Constant))]
     expr = None
     if len(body) == 1 and isinstance(body[0], ast.Return) and body[0].value is not None:
-        expr = copy.deepcopy(body[0].value)
+        expr = _clone_ast(body[0].value)
     elif (
         len(body) == 2
         and isinstance(body[0], ast.For)
@@ -111,7 +112,7 @@ def _truth_of_helper(h, args_map, methods, depth):
             test = conds[0] if len(conds) == 1 else ast.BoolOp(op=ast.And(), values=conds)
             expr = ast.Call(
                 func=ast.Name(id="any", ctx=ast.Load()),
-                args=[ast.GeneratorExp(elt=copy.deepcopy(test), generators=[ast.comprehension(target=copy.deepcopy(lp.target), iter=copy.deepcopy(lp.iter), ifs=[], is_async=0)])],
+                args=[ast.GeneratorExp(elt=_clone_ast(test), generators=[ast.comprehension(target=_clone_ast(lp.target), iter=_clone_ast(lp.iter), ifs=[], is_async=0)])],
                 keywords=[],
             )
     if expr is None:
@@ -156,7 +157,7 @@ def _inline_helper_tests(test, methods, depth=0):
 
     import copy
 
-    out = T().visit(copy.deepcopy(test))
+    out = T().visit(_clone_ast(test))
     ast.fix_missing_locations(out)
     return out
 
@@ -180,13 +181,13 @@ def guard_paths(func, methods):
                 ):
                     m = _bind(methods[v.func.attr], v)
                     if m is not None:
-                        pending_helper[st.targets[0].id] = (methods[v.func.attr], {k: _SubstNames(subst).visit(copy.deepcopy(a)) for k, a in m.items()})
+                        pending_helper[st.targets[0].id] = (methods[v.func.attr], {k: _SubstNames(subst).visit(_clone_ast(a)) for k, a in m.items()})
                         continue
                 subst = dict(subst)
-                subst[st.targets[0].id] = _SubstNames(subst).visit(copy.deepcopy(v))
+                subst[st.targets[0].id] = _SubstNames(subst).visit(_clone_ast(v))
                 continue
             if isinstance(st, ast.If):
-                t = _SubstNames(subst).visit(copy.deepcopy(st.test))
+                t = _SubstNames(subst).visit(_clone_ast(st.test))
                 ast.fix_missing_locations(t)
                 # `if reason is not None: return reason` / `if reason: return reason`
                 names_in_test = {n.id for n in ast.walk(st.test) if isinstance(n, ast.Name)}
@@ -201,8 +202,8 @@ def guard_paths(func, methods):
                 walk(st.orelse, conds + [(t, False)], subst, loops, owner, depth)
                 continue
             if isinstance(st, ast.For):
-                it = _SubstNames(subst).visit(copy.deepcopy(st.iter))
-                walk(st.body, conds, subst, loops + [(len(conds), copy.deepcopy(st.target), it)], owner, depth)
+                it = _SubstNames(subst).visit(_clone_ast(st.iter))
+                walk(st.body, conds, subst, loops + [(len(conds), _clone_ast(st.target), it)], owner, depth)
                 continue
             if isinstance(st, ast.Return):
                 v = st.value
@@ -216,7 +217,7 @@ def guard_paths(func, methods):
                     m = _bind(methods[v.func.attr], v)
                     if m is not None:
                         h = methods[v.func.attr]
-                        walk(h.body, conds, {k: _SubstNames(subst).visit(copy.deepcopy(a)) for k, a in m.items()}, loops, h, depth + 1)
+                        walk(h.body, conds, {k: _SubstNames(subst).visit(_clone_ast(a)) for k, a in m.items()}, loops, h, depth + 1)
                         continue
                 if isinstance(v, ast.Name) and v.id in pending_helper and depth < 3:
                     h, amap = pending_helper[v.id]
